@@ -3,10 +3,14 @@ package checks
 // C04 — Inbound QoS 2 is exactly-once; every QoS>0 packet gets its matching ack.
 
 import (
+	"context"
 	"fmt"
 	"sort"
+	"strings"
 	"testing"
+	"time"
 
+	"github.com/DrmagicE/gmqtt/server"
 	"pgregory.net/rapid"
 
 	"verif/ev"
@@ -15,15 +19,20 @@ import (
 )
 
 type c04Op struct {
-	Op    string `json:"op"` // pub2 retransmit pubrel pub1 reconnect
+	Op    string `json:"op"` // pub2 retransmit pubrel pub1 reconnect takeover
 	ID    uint16 `json:"id,omitempty"`
 	Clean bool   `json:"clean,omitempty"`
+	// takeover: K QoS0 publishes to a slow topic and a QoS2 PUBLISH(id) are written without waiting for anything; a
+	// second connection with the publisher's client id takes the session over at once, retransmits the PUBLISH
+	// (DUP=1) and completes the flow - while the first connection's packets may still be in the broker's hands
+	K int `json:"k,omitempty"`
 }
 
 type c04Scen struct {
 	Backend string  `json:"backend"`
 	V       int     `json:"v"`
 	Ops     []c04Op `json:"ops"`
+	SlowUs  int     `json:"slow_us,omitempty"` // an OnMsgArrived hook takes this long for messages on slow/...
 }
 
 func genC04(backend string) func(t *rapid.T) c04Scen {
@@ -41,10 +50,13 @@ func genC04(backend string) func(t *rapid.T) c04Scen {
 				s.Ops = append(s.Ops, c04Op{Op: "pubrel", ID: id})
 			case k == 9:
 				s.Ops = append(s.Ops, c04Op{Op: "pub1", ID: uint16(10 + rapid.IntRange(0, 2).Draw(t, "id1"))})
+			case k == 10 && rapid.Bool().Draw(t, "tk"):
+				s.Ops = append(s.Ops, c04Op{Op: "takeover", ID: id, K: rapid.IntRange(0, 3).Draw(t, "k")})
 			default:
 				s.Ops = append(s.Ops, c04Op{Op: "reconnect", Clean: rapid.IntRange(0, 3).Draw(t, "clean") == 0})
 			}
 		}
+		s.SlowUs = rapid.SampledFrom([]int{0, 300, 3000}).Draw(t, "slow")
 		return s
 	}
 }
@@ -62,7 +74,13 @@ func runC04(s c04Scen, c *ev.Case) *ev.Violation {
 		cfg = fixture.WithRedis(cfg, rs.Addr())
 		c.Label("backend_redis")
 	}
-	b, err = fixture.Start(fixture.Opts{Config: cfg})
+	hooks := &server.Hooks{OnMsgArrived: func(ctx context.Context, cl server.Client, req *server.MsgArrivedRequest) error {
+		if s.SlowUs > 0 && req.Message != nil && strings.HasPrefix(req.Message.Topic, "slow/") {
+			time.Sleep(time.Duration(s.SlowUs) * time.Microsecond)
+		}
+		return nil
+	}}
+	b, err = fixture.Start(fixture.Opts{Config: cfg, Hooks: hooks})
 	if err != nil {
 		return harnessErr("start broker: %v", err)
 	}
@@ -165,6 +183,47 @@ func runC04(s c04Scen, c *ev.Case) *ev.Violation {
 			if a.PacketID != op.ID {
 				return ev.Violf("C04.puback-id", "PUBACK carries id %d for PUBLISH id %d", a.PacketID, op.ID)
 			}
+		case "takeover":
+			if _, inU := awaiting[op.ID]; inU || !persistent {
+				c.Count("skipped_ops", 1)
+				continue
+			}
+			uid++
+			payload := fmt.Sprintf("m%d", uid)
+			forwarded = append(forwarded, payload)
+			for k := 0; k < op.K; k++ {
+				_ = p.Send(&mw.Packet{Type: mw.PUBLISH, Topic: "slow/x", Payload: []byte(fmt.Sprintf("filler-%d-%d", i, k))})
+			}
+			_ = p.Send(&mw.Packet{Type: mw.PUBLISH, QoS: 2, PacketID: op.ID, Topic: "t/x", Payload: []byte(payload)})
+			old := p
+			np, ack, err := connectP(false)
+			if err != nil || ack == nil || ack.ReasonCode != 0 {
+				return ev.Violf("C04.reconnect", "take-over CONNECT failed: %v %v", ack, err)
+			}
+			defer old.Kill()
+			p = np
+			if !ack.SessionPresent {
+				return ev.Violf("C04.session-present", "take-over of a live persistent session with clean=0: Session Present = 0").With("version", s.V)
+			}
+			if err := p.Send(&mw.Packet{Type: mw.PUBLISH, QoS: 2, Dup: true, PacketID: op.ID, Topic: "t/x", Payload: []byte(payload)}); err != nil {
+				return ev.Violf("C04.send", "send failed: %v", err)
+			}
+			rec, err := p.WaitType(mw.PUBREC, fixture.DefaultWait)
+			if err != nil || rec.PacketID != op.ID || rec.ReasonCode >= 0x80 {
+				return ev.Violf("C04.pubrec", "retransmitted QoS2 PUBLISH id=%d after a take-over not answered by a PUBREC for it: %v %v", op.ID, rec, err)
+			}
+			if err := p.Send(&mw.Packet{Type: mw.PUBREL, PacketID: op.ID}); err != nil {
+				return ev.Violf("C04.send", "send failed: %v", err)
+			}
+			comp, err := p.WaitType(mw.PUBCOMP, fixture.DefaultWait)
+			if err != nil || comp.PacketID != op.ID {
+				return ev.Violf("C04.pubcomp", "PUBREL id=%d after a take-over not answered by a PUBCOMP for it: %v %v", op.ID, comp, err)
+			}
+			everCompleted[op.ID] = true
+			c.Label("takeover_with_packets_in_flight")
+			nontrivial = true
+			// whatever of the first connection's packets the broker still held has been handled before this returns
+			old.WaitClosed(fixture.DefaultWait)
 		case "reconnect":
 			p.Kill()
 			np, ack, err := connectP(op.Clean)
@@ -207,7 +266,7 @@ func runC04(s c04Scen, c *ev.Case) *ev.Violation {
 	}
 	var got []string
 	for _, r := range sub.Take(func(p *mw.Packet) bool { return p.Type == mw.PUBLISH }) {
-		if !isSentinel(r.P) {
+		if !isSentinel(r.P) && !strings.HasPrefix(string(r.P.Payload), "filler-") {
 			got = append(got, string(r.P.Payload))
 		}
 	}
